@@ -200,7 +200,11 @@ LamCase(v) ==
     [kind |-> "lam", u |-> u, pat |-> PatOf(v), pole |-> IsPole(u), oneMinusAbsZ |-> QSub(QOne, QAbs(u[3])),
      X2 |-> LamX2(u), Y2 |-> LamY2(u),
      XT |-> SignedSqrtTerm(Sgn(v[1]), LamX2(u)), YT |-> SignedSqrtTerm(Sgn(v[2]), LamY2(u))]
-LamFloatCase(p) == [kind |-> "lamf", pat |-> p, pole |-> (p[1] = 0 /\ p[2] = 0)]
+LamFloatCase(p) == [kind |-> "lamf", pat |-> p, pole |-> (p[1] = 0 /\ p[2] = 0), near |-> 0]
+\* directions close to a pole but not on it (x, y of magnitude 10^-e, |z| -> 1): the projection is continuous
+\* there - radius^2 = 1 - |z| > 0 and the azimuth is that of (x, y) - however small the offset
+NearPolePatterns == {p \in Patterns : p[3] # 0 /\ (p[1] # 0 \/ p[2] # 0)}
+LamNearPoleCase(p, e) == [kind |-> "lamf", pat |-> p, pole |-> FALSE, near |-> e]
 LambertLemma ==
   case.kind = "lam" =>
     LET u == case.u  um == <<u[1], u[2], QNeg(u[3])>> IN
@@ -261,6 +265,7 @@ GenInit ==
   \/ case \in {PoleFloatCase(h, s) : h \in HKLs, s \in AxesStrings}
   \/ case \in {LamCase(v) : v \in PythVecs}
   \/ case \in {LamFloatCase(p) : p \in Patterns}
+  \/ case \in {LamNearPoleCase(p, e) : p \in NearPolePatterns, e \in {2, 3, 4, 6}}
   \/ case \in {LiftCase(p, s) : p \in DiskPts, s \in {-1, 1}}
   \/ case \in {DensCase(k, ax, g, dc, n, w) : k \in Kernels, ax \in BOOLEAN, g \in GridSteps,
                                              dc \in DataClasses, n \in DataN, w \in Weights}
